@@ -706,9 +706,22 @@ func (w *Wallet) createSwapRequest(proofs cashu.Proofs, mint *walletMint) (swapR
 	}, nil
 }
 
+// inputsWithoutDLEQ returns a copy of the proofs without their DLEQ proofs.
+// The DLEQ proof a wallet stores with a proof includes the blinding factor r and
+// is only meant for the recipient of a token. Sent to the mint as part of an
+// input, it lets the mint link the proof being spent to the blind signature it issued.
+func inputsWithoutDLEQ(proofs cashu.Proofs) cashu.Proofs {
+	inputs := make(cashu.Proofs, len(proofs))
+	for i, proof := range proofs {
+		proof.DLEQ = nil
+		inputs[i] = proof
+	}
+	return inputs
+}
+
 func swap(mint string, swapRequest swapRequestPayload) (cashu.Proofs, error) {
 	request := nut03.PostSwapRequest{
-		Inputs:  swapRequest.inputs,
+		Inputs:  inputsWithoutDLEQ(swapRequest.inputs),
 		Outputs: swapRequest.outputs,
 	}
 	swapResponse, err := client.PostSwap(mint, request)
@@ -925,7 +938,7 @@ func (w *Wallet) Melt(quoteId string) (*nut05.PostMeltQuoteBolt11Response, error
 
 	meltBolt11Request := nut05.PostMeltBolt11Request{
 		Quote:   quote.QuoteId,
-		Inputs:  proofs,
+		Inputs:  inputsWithoutDLEQ(proofs),
 		Outputs: outputs,
 	}
 	meltBolt11Response, err := client.PostMeltBolt11(mint.mintURL, meltBolt11Request)
@@ -1190,7 +1203,7 @@ func (w *Wallet) swapProofs(proofs cashu.Proofs, from, to *walletMint) (uint64, 
 	}
 
 	// request from mint to pay invoice from the mint quote request
-	meltBolt11Request := nut05.PostMeltBolt11Request{Quote: meltQuoteResponse.Quote, Inputs: proofs}
+	meltBolt11Request := nut05.PostMeltBolt11Request{Quote: meltQuoteResponse.Quote, Inputs: inputsWithoutDLEQ(proofs)}
 	meltBolt11Response, err := client.PostMeltBolt11(from.mintURL, meltBolt11Request)
 	if err != nil {
 		return 0, fmt.Errorf("error melting token: %v", err)
@@ -1428,7 +1441,7 @@ func (w *Wallet) swapToSend(
 	cashu.SortBlindedMessages(blindedMessages, secrets, rs)
 
 	// call swap endpoint
-	swapRequest := nut03.PostSwapRequest{Inputs: proofsToSwap, Outputs: blindedMessages}
+	swapRequest := nut03.PostSwapRequest{Inputs: inputsWithoutDLEQ(proofsToSwap), Outputs: blindedMessages}
 	swapResponse, err := client.PostSwap(mint.mintURL, swapRequest)
 	if err != nil {
 		return nil, err
